@@ -56,7 +56,12 @@ def chk_identities(inp):
              # separations beyond the outer scale (the covariance is small there, not zero)
              ("vk", 16, 0.5, 0.2, 5., {"n_columns": 2}), ("vk", 12, 1.0, 0.2, 6., {"n_columns": 2}), ("k", 9, 0.5, 0.2, 3., {"stencil_length_factor": 2}),
              # very large outer scales (the near-Kolmogorov regime): the screen must build, and the identities hold relative to the (huge) variance
-             ("vk", 8, 0.2, 0.5, 1e3, {"n_columns": 2}), ("vk", 8, 0.2, 0.5, 1e5, {"n_columns": 2}), ("vk", 8, 0.2, 0.5, 1e6, {"n_columns": 2}), ("k", 9, 0.2, 0.2, 1e5, {"stencil_length_factor": 2})]
+             ("vk", 8, 0.2, 0.5, 1e3, {"n_columns": 2}), ("vk", 8, 0.2, 0.5, 1e5, {"n_columns": 2}), ("vk", 8, 0.2, 0.5, 1e6, {"n_columns": 2}), ("k", 9, 0.2, 0.2, 1e5, {"stencil_length_factor": 2}),
+             # constructible but badly conditioned (cond(Cov_zz) ~ 1e14): the identities must still hold, in units of the LOCAL statistics as well
+             ("k", 32, 0.05, 0.15, 1e4, {}), ("vk", 16, 0.05, 0.2, 1e5, {"n_columns": 2})]
+    # (not included: L0 / pixel_scale ~ 1e9, e.g. (16, 0.01, 0.2, 1e7): there the covariance differences between neighbouring pixels are below the
+    #  float64 resolution of the covariance itself, 1e-4 rad^2 against a one-pixel structure function of 0.05 rad^2 -- a limit of the covariance
+    #  formulation, not of the solve; the recursion stays stable there, which is C05's clause `stable`)
     for kind, n, pix, r0, L0, kw in cases:
         cls = aotools.PhaseScreenVonKarman if kind == "vk" else aotools.PhaseScreenKolmogorov
         scr = cls(n, pix, r0, L0, random_seed=5, **kw)
@@ -71,9 +76,11 @@ def chk_identities(inp):
             pass
         e1 = abs(A @ Czz - Cxz).max() / c0
         e2 = abs(A @ Czz @ A.T + B @ B.T - Cxx).max() / c0
-        # measured on the unchanged tree: 1e-12 for L0 <= 30 m, 4e-11 at 1 km, 5e-7 at 1e5..1e6 m (conditioning of Cov_zz: its entries differ by 1e-8 relative)
-        tol = 1e-9 if L0 <= 1e3 else 2e-5
-        if e1 > tol or e2 > tol:
+        # measured on the unchanged tree: <= 2e-15 of the variance for every case (outer scales to 1e6 m included); in units of the structure function
+        # over one pixel the worst case (L0 = 1e6 m) is 3e-6
+        tol = 1e-9
+        sf1 = 6.88 * (abs(pix) / r0) ** (5. / 3)          # structure function over one pixel: the scale of what a new row adds
+        if (e1 > tol or e2 > tol) or (abs(A @ Czz - Cxz).max() > 1e-3 * sf1):
             return bad("%s(%d, pixel_scale=%g, r0=%g, L0=%g): A Cov_zz = Cov_xz / A Cov_zz A^T + B B^T = Cov_xx fail against the von Karman covariance at the true pixel separations" % (cls.__name__, n, pix, r0, L0),
                        [float(e1), float(e2)], "< %g x Cov(0)" % tol)
         if kind == "k":
